@@ -5,7 +5,7 @@ from props import gpcommon as G
 
 ID = "C15"
 RULE = ("Generated programs in which threads register/unregister (memb, mb, qsbr) repeatedly, or are created and exit in waves (T0 spawn/join "
-        "program; bp: first read-side use registers, thread exit unregisters) with 2..6 threads against a bp registry whose initial capacity is 2 "
+        "program; bp: first read-side use registers, thread exit unregisters) with 2..6 threads against a bp registry whose initial capacity is 1 (chunks of 1, 2, 4 slots) "
         "(hook), with mremap in-place growth accepted or refused (fault), and signals aimed at threads during bp registration. Oracles: the C01 "
         "interval/litmus/shadow-heap oracles and the C02 termination oracles on these scenarios; bp reader-slot address constant for the thread's "
         "life; number of distinct bp slots ever handed out <= peak number of live threads (slots are reused); self-deadlock of a signal handler on "
